@@ -51,3 +51,10 @@ Proof.
   exists (mk_skel RUpdateCb CdSelect SgWait IfNone RdReading TkListen false KxNone true false Fin0 false DNone true false).
   vm_compute. repeat split.
 Qed.
+
+(* the same statement in the vocabulary of the real-run Spec (Spec.LifeSpec.class_of / dec_of) *)
+From BT Require Import Spec.LifeSpec Proof.SkelExtra.
+Theorem C04_error_is_class_of_cause : forall s e, Reach s -> run s = RReturned e ->
+  (exists c, dec_of c = dec s /\ err_is (class_of c) e = true) \/ (dec s = DQuit /\ ext s = true /\ e = EKilled).
+Proof. exact returned_error_is_class_of_cause. Qed.
+Print Assumptions C04_error_is_class_of_cause.
